@@ -4,6 +4,7 @@ import (
 	"fmt"
 	"math"
 	"math/big"
+	"sort"
 
 	"github.com/tuneinsight/lattigo/v6/circuits/ckks/bootstrapping"
 
@@ -38,6 +39,7 @@ func c10Scenarios() []c10Scenario {
 			{name: "mpbgv.protocols", build: c10MPBGV},
 			{name: "mpckks.protocols", build: c10MPCKKS},
 			{name: "rgsw", build: c10RGSW},
+			{name: "rlwe.RingPackingEvaluator", build: c10RingPacking},
 			{name: "bootstrapping.Evaluator", heavy: true, build: c10Bootstrapping},
 		}
 	}
@@ -265,12 +267,23 @@ func c10EncDec(ctx *core.RunCtx, g *core.Xoshiro) *c10World {
 	pt := bgv.NewPlaintext(bp, L)
 	_ = ecd.Encode(vec, pt)
 	ct0 := sc.fresh(g, L)
+	ctCoeff := ct0.CopyNew()
+	for i := range ctCoeff.Value {
+		bp.RingQ().AtLevel(ctCoeff.Level()).INTT(ctCoeff.Value[i], ctCoeff.Value[i])
+	}
+	ctCoeff.IsNTT = false
 	mk := func() any { return &c10EncDecObj{bgv.NewEncryptor(bp, key), bgv.NewDecryptor(bp, cc.sk)} }
 	o := func(x any) *c10EncDecObj { return x.(*c10EncDecObj) }
 	w := &c10World{name: "rlwe.Encryptor+Decryptor", orig: mk(), fresh: mk}
 	w.copiers = []c10Copier{
 		{"ShallowCopy", true, func(x any) any { return &c10EncDecObj{o(x).enc.ShallowCopy(), o(x).dec.ShallowCopy()} }},
 		{"WithKey(same)", true, func(x any) any { return &c10EncDecObj{o(x).enc.ShallowCopy().WithKey(key), o(x).dec.WithKey(cc.sk)} }},
+		{"WithPRNG", false, func(x any) any {
+			k := make([]byte, 32)
+			g.Fill(k)
+			prng, _ := sampling.NewKeyedPRNG(k)
+			return &c10EncDecObj{o(x).enc.WithPRNG(prng), o(x).dec}
+		}},
 	}
 	w.steps = []c10Step{
 		{"EncryptNew", true, func(x any) (uint64, error) {
@@ -294,6 +307,11 @@ func c10EncDec(ctx *core.RunCtx, g *core.Xoshiro) *c10World {
 		}},
 		{"DecryptNew", false, func(x any) (uint64, error) {
 			p := o(x).dec.DecryptNew(ct0)
+			return canonHashPoly(bp.RingQ().AtLevel(p.Level()), 1, p.Value), nil
+		}},
+		{"DecryptNew(coefficient domain)", false, func(x any) (uint64, error) {
+			// the same ciphertext outside the NTT domain: decryption goes through the decryptor's own buffer
+			p := o(x).dec.DecryptNew(ctCoeff)
 			return canonHashPoly(bp.RingQ().AtLevel(p.Level()), 1, p.Value), nil
 		}},
 	}
@@ -745,7 +763,10 @@ func c10RGSW(ctx *core.RunCtx, g *core.Xoshiro) *c10World {
 	mk := func() any { return &c10RGSWObj{rgsw.NewEncryptor(params, cc.sk), rgsw.NewEvaluator(params, cc.evk)} }
 	o := func(x any) *c10RGSWObj { return x.(*c10RGSWObj) }
 	w := &c10World{name: "rgsw", orig: mk(), fresh: mk}
-	w.copiers = []c10Copier{{"ShallowCopy", true, func(x any) any { return &c10RGSWObj{o(x).enc.ShallowCopy(), o(x).ev.ShallowCopy()} }}}
+	w.copiers = []c10Copier{
+		{"ShallowCopy", true, func(x any) any { return &c10RGSWObj{o(x).enc.ShallowCopy(), o(x).ev.ShallowCopy()} }},
+		{"WithKey(same)", false, func(x any) any { return &c10RGSWObj{o(x).enc.ShallowCopy(), o(x).ev.WithKey(cc.evk.ShallowCopy())} }},
+	}
 	w.steps = []c10Step{
 		{"ExternalProduct", false, func(x any) (uint64, error) {
 			out := rlwe.NewCiphertext(params, 1, L)
@@ -854,6 +875,124 @@ func c10Bootstrapping(ctx *core.RunCtx, g *core.Xoshiro) *c10World {
 				h = core.SplitMix64(h ^ canonHashCt(params, &out[i]))
 			}
 			return h, nil
+		}},
+	}
+	return w
+}
+
+// --- ring packing evaluator ---------------------------------------------------------------------------
+
+type c10RPCtx struct {
+	params rlwe.Parameters
+	evk    *rlwe.RingPackingEvaluationKey
+	ct     *rlwe.Ciphertext
+	halves [2]*rlwe.Ciphertext
+	small  map[int]*rlwe.Ciphertext
+}
+
+func c10RingPacking(ctx *core.RunCtx, g *core.Xoshiro) *c10World {
+	variant := ctx.Ch.Draw("ringpacking-variant", 2) // number of auxiliary primes - 1
+	c := ctx.Cached(fmt.Sprintf("c10/ringpacking/%d", variant), func(*core.Xoshiro) any {
+		lit := rlwe.ParametersLiteral{LogN: 7, LogQ: []int{50, 40}, LogP: []int{50, 50}[:1+variant], NTTFlag: true}
+		params, err := rlwe.NewParametersFromLiteral(lit)
+		if err != nil {
+			return err
+		}
+		const small = 5
+		sk := rlwe.NewKeyGenerator(params).GenSecretKeyNew()
+		L, LP := params.MaxLevelQ(), params.MaxLevelP()
+		ep := rlwe.EvaluationKeyParameters{LevelQ: &L, LevelP: &LP}
+		evk := &rlwe.RingPackingEvaluationKey{}
+		ski, err := evk.GenRingSwitchingKeys(params, sk, small, ep)
+		if err != nil {
+			return err
+		}
+		evk.GenRepackEvaluationKeys(evk.Parameters[small], ski[small], ep)
+		evk.GenRepackEvaluationKeys(evk.Parameters[params.LogN()], ski[params.LogN()], ep)
+		evk.GenExtractEvaluationKeys(evk.Parameters[small], ski[small], ep)
+		mkct := func(p rlwe.Parameters, k *rlwe.SecretKey, seed uint64) (*rlwe.Ciphertext, error) {
+			pt := rlwe.NewPlaintext(p, p.MaxLevel())
+			x := core.NewXoshiro(seed)
+			for i := range pt.Value.Coeffs {
+				for j := range pt.Value.Coeffs[i] {
+					pt.Value.Coeffs[i][j] = x.Next() % 1024
+				}
+			}
+			pt.IsNTT = false
+			p.RingQ().NTT(pt.Value, pt.Value)
+			pt.IsNTT = true
+			return rlwe.NewEncryptor(p, k).EncryptNew(pt)
+		}
+		cc := &c10RPCtx{params: params, evk: evk, small: map[int]*rlwe.Ciphertext{}}
+		if cc.ct, err = mkct(params, sk, 1); err != nil {
+			return err
+		}
+		ph := *evk.Parameters[params.LogN()-1].GetRLWEParameters()
+		for i := range cc.halves {
+			if cc.halves[i], err = mkct(ph, ski[ph.LogN()], uint64(2+i)); err != nil {
+				return err
+			}
+		}
+		ps := *evk.Parameters[small].GetRLWEParameters()
+		for _, i := range []int{0, 3, 17, 64, 100} {
+			if cc.small[i], err = mkct(ps, ski[small], uint64(10+i)); err != nil {
+				return err
+			}
+		}
+		return cc
+	})
+	cc, ok := c.(*c10RPCtx)
+	if !ok {
+		ctx.Harness("ring packing context: %v", c)
+	}
+	ev := func(x any) *rlwe.RingPackingEvaluator { return x.(*rlwe.RingPackingEvaluator) }
+	hct := func(ct *rlwe.Ciphertext) uint64 {
+		return canonHashCt(*cc.evk.Parameters[ct.LogN()].GetRLWEParameters(), ct)
+	}
+	hmap := func(m map[int]*rlwe.Ciphertext, err error) (uint64, error) {
+		if err != nil {
+			return 0, err
+		}
+		var keys []int
+		for k := range m {
+			keys = append(keys, k)
+		}
+		sort.Ints(keys)
+		h := uint64(len(keys))
+		for _, k := range keys {
+			h = core.SplitMix64(h ^ uint64(k)*0x9e37 ^ hct(m[k]))
+		}
+		return h, nil
+	}
+	copies := func() map[int]*rlwe.Ciphertext {
+		m := map[int]*rlwe.Ciphertext{}
+		for k, v := range cc.small {
+			m[k] = v.CopyNew()
+		}
+		return m
+	}
+	idx := map[int]bool{0: true, 5: true, 32: true, 77: true}
+	mk := func() any { return rlwe.NewRingPackingEvaluator(cc.evk) }
+	w := &c10World{name: "rlwe.RingPackingEvaluator", orig: mk(), fresh: mk}
+	w.copiers = []c10Copier{{"ShallowCopy", true, func(x any) any { return ev(x).ShallowCopy() }}}
+	w.steps = []c10Step{
+		{"SplitNew", false, func(o any) (uint64, error) {
+			a, b, err := ev(o).SplitNew(cc.ct.CopyNew())
+			return errOf(err, func() uint64 { return core.SplitMix64(hct(a)) ^ hct(b) })
+		}},
+		{"MergeNew", false, func(o any) (uint64, error) {
+			out, err := ev(o).MergeNew(cc.halves[0].CopyNew(), cc.halves[1].CopyNew())
+			return errOf(err, func() uint64 { return hct(out) })
+		}},
+		{"Extract", false, func(o any) (uint64, error) { return hmap(ev(o).Extract(cc.ct.CopyNew(), idx)) }},
+		{"ExtractNaive", false, func(o any) (uint64, error) { return hmap(ev(o).ExtractNaive(cc.ct.CopyNew(), idx)) }},
+		{"Repack", false, func(o any) (uint64, error) {
+			out, err := ev(o).Repack(copies())
+			return errOf(err, func() uint64 { return hct(out) })
+		}},
+		{"RepackNaive", false, func(o any) (uint64, error) {
+			out, err := ev(o).RepackNaive(copies())
+			return errOf(err, func() uint64 { return hct(out) })
 		}},
 	}
 	return w
